@@ -151,7 +151,7 @@ func (d *Decoder) readPayload() (payload []byte, n int, err error) {
 		if err != nil {
 			return nil, n, fmt.Errorf("error reading claimed uncompressed size varint: %w", err)
 		}
-		if claimedUncompressedSize <= 0 {
+		if claimedUncompressedSize == 0 {
 			if actualUncompressedSize := buf.Len(); actualUncompressedSize > d.compressionThreshold {
 				return nil, n, fmt.Errorf("actual uncompressed size %d is greater than threshold %d",
 					actualUncompressedSize, d.compressionThreshold)
@@ -230,6 +230,16 @@ func (d *Decoder) decompress(claimedUncompressedSize int, rd io.Reader) (decompr
 	decompressed = make([]byte, claimedUncompressedSize)
 	_, err = io.ReadFull(d.zrd, decompressed)
 	if err != nil {
+		return nil, fmt.Errorf("error decompressing payload: %w", err)
+	}
+	// The zlib stream must end exactly here: like vanilla and Velocity, reject a body
+	// that inflates to more than the claimed size (or that is not a complete stream).
+	var extra [1]byte
+	if n, err := d.zrd.Read(extra[:]); n != 0 || err != io.EOF {
+		if n != 0 || err == nil {
+			return nil, errs.NewSilentErr("compressed payload inflates to more than the claimed size %d",
+				claimedUncompressedSize)
+		}
 		return nil, fmt.Errorf("error decompressing payload: %w", err)
 	}
 	return decompressed, d.zrd.Close()
